@@ -31,6 +31,8 @@ type spExp struct {
 	Fb     []bool   `json:"fb"`
 	Srv    []string `json:"srv"`
 	Wbuf   []bool   `json:"wbuf"`
+	Cb     []bool   `json:"cb"`
+	Inproc []bool   `json:"inproc"`
 	Ring   []int    `json:"ring"`
 	Holder []int    `json:"holder"`
 	Sess   []string `json:"sess"`
@@ -51,6 +53,7 @@ type spHistory struct {
 	Callers int      `json:"callers"`
 	N       int      `json:"n"`
 	Raw     bool     `json:"raw"` // witness: ignore the known list
+	Sched   bool     `json:"sched"` // contains PutBegin/PutRelease/PutPush: PutBack runs under the serialising scheduler
 	Steps   []spStep `json:"steps"`
 }
 
@@ -72,7 +75,22 @@ type spJob struct {
 		Callers int   `json:"callers"`
 		Cap     int   `json:"cap"`
 	} `json:"random"`
-	Conc spConcJob `json:"conc"`
+	Conc   spConcJob `json:"conc"`
+	Sweeps []spSweep `json:"sweeps"`
+}
+
+// spSweep: after the setup history, caller A's PutBack and caller B's GetStream+WriteBytes run under the serialising
+// scheduler; B runs at every scheduling point of A in turn (statement granularity), plus seeded random interleavings
+type spSweep struct {
+	Name    string   `json:"name"`
+	Cap     int      `json:"cap"`
+	Callers int      `json:"callers"`
+	Setup   []spStep `json:"setup"`
+	A       int      `json:"a"`
+	B       int      `json:"b"`
+	Random  int      `json:"random"`
+	Seed    int64    `json:"seed"`
+	Only    []int    `json:"only,omitempty"` // replay: an explicit schedule (thread ids 1=A 2=B)
 }
 
 type spViolation struct {
@@ -83,6 +101,7 @@ type spViolation struct {
 	Callers int      `json:"callers"`
 	Steps   []spStep `json:"steps"`
 	At      int      `json:"at"`
+	Sweep   *spSweep `json:"sweep,omitempty"`
 }
 
 type spConcEvent struct {
@@ -110,12 +129,18 @@ type spResult struct {
 	ConcOps     int               `json:"conc_ops"`
 	ConcTraces  [][]spConcEvent   `json:"conc_traces"`
 	ConcReuse   int               `json:"conc_reused"`
+	SweepRuns   int               `json:"sweep_runs"`
+	SweepPoints int               `json:"sweep_points"`
+	SweepReuse  int               `json:"sweep_b_got_a_stream"`
+	SweepLabels []string          `json:"sweep_labels"`
+	SchedHist   int               `json:"sched_histories"`
 }
 
 const (
 	spSlugDiscard = "pool-discard-without-close"
 	spSlugLate    = "late-reply-into-pooled-stream"
 	spSlugWrite   = "unflushed-write-survives-reuse"
+	spSlugCbArm   = "close-after-reset-not-armed"
 )
 
 type spWorld struct {
@@ -137,14 +162,24 @@ type spWorld struct {
 	dirtyPut     map[*Stream]bool  // the stream was given back with unflushed bytes in its write buffer
 	pooledOpen   map[*Stream]bool  // the stream was open when it was given back (so: kept for reuse legitimately)
 	arrivals     map[*Stream][]int // per unread answer: the use generation that held the stream when it arrived (0 = pooled)
+	cbs          map[*Stream]*spCb // callbacks set through SetCb (the latest per stream)
+	allCbs       []*spCb
+	delivered    map[*Stream]int   // answers the peer flushed successfully to the stream
+	consumed     map[*Stream]*int32 // messages taken out of the stream by Read / OnData
+	puts         map[int]*spPut    // caller -> PutBack in progress (scheduler-driven histories)
+	putClean     map[*Stream]bool  // at PutBack: reset() was going to succeed (open, nothing unread/unflushed, not fallback), so it cleared the callbacks
+	sweep        bool
 	res          *spResult
 	viol         *spViolation
 	lastRes      string
+	phaseDrift   string
+	cmu          sync.Mutex
 }
 
 func spNewWorld(cap, callers int, known []string, res *spResult) (*spWorld, error) {
 	w := &spWorld{cap: cap, callers: callers, res: res, known: map[string]bool{}, exempt: map[*Stream]bool{},
-		lateIn: map[*Stream]int{}, staleOK: map[*Stream]int{}, arrivals: map[*Stream][]int{}, pooledOpen: map[*Stream]bool{}, dirtyPut: map[*Stream]bool{}, holder: make([]int, callers)}
+		lateIn: map[*Stream]int{}, staleOK: map[*Stream]int{}, arrivals: map[*Stream][]int{}, pooledOpen: map[*Stream]bool{}, dirtyPut: map[*Stream]bool{}, holder: make([]int, callers),
+		cbs: map[*Stream]*spCb{}, delivered: map[*Stream]int{}, consumed: map[*Stream]*int32{}, puts: map[int]*spPut{}, putClean: map[*Stream]bool{}}
 	for _, k := range known {
 		w.known[k] = true
 	}
@@ -207,6 +242,15 @@ func (w *spWorld) settleAll() {
 	for _, p := range w.pairs {
 		if err := spSettle(p); err != nil {
 			w.fail("settle", err.Error())
+		}
+	}
+	w.waitCb()
+	// a callback goroutine that just closed its stream has told the peer
+	for _, p := range w.pairs {
+		if p.connA.pending() > 0 || p.connB.pending() > 0 {
+			if err := spSettle(p); err != nil {
+				w.fail("settle", err.Error())
+			}
 		}
 	}
 	w.refreshSrv()
@@ -297,8 +341,10 @@ func (w *spWorld) idOf(s *Stream) int {
 
 func (w *spWorld) ringObjs() []*Stream {
 	p := w.pool
-	p.Lock()
-	defer p.Unlock()
+	if !w.sweep { // (under the serialising scheduler a parked thread may hold the pool mutex; only one goroutine runs)
+		p.Lock()
+		defer p.Unlock()
+	}
 	out := []*Stream{}
 	for i := p.head; i < p.tail; i++ {
 		out = append(out, p.streams[i%uint64(p.capacity)])
@@ -325,7 +371,7 @@ func (w *spWorld) sessState(p *vpPair) string {
 }
 
 func (w *spWorld) project(n int) *spExp {
-	x := &spExp{St: []string{}, Tab: []bool{}, Unread: []int{}, Fb: []bool{}, Srv: []string{}, Wbuf: []bool{}, Ring: []int{}, Holder: []int{}, Sess: []string{}}
+	x := &spExp{St: []string{}, Tab: []bool{}, Unread: []int{}, Fb: []bool{}, Srv: []string{}, Wbuf: []bool{}, Cb: []bool{}, Inproc: []bool{}, Ring: []int{}, Holder: []int{}, Sess: []string{}}
 	for i := 0; i < n; i++ {
 		if i >= len(w.streams) {
 			x.St = append(x.St, "none")
@@ -334,6 +380,8 @@ func (w *spWorld) project(n int) *spExp {
 			x.Fb = append(x.Fb, false)
 			x.Srv = append(x.Srv, "none")
 			x.Wbuf = append(x.Wbuf, false)
+			x.Cb = append(x.Cb, false)
+			x.Inproc = append(x.Inproc, false)
 			continue
 		}
 		s := w.streams[i]
@@ -342,6 +390,8 @@ func (w *spWorld) project(n int) *spExp {
 		x.Unread = append(x.Unread, spUnreadBytes(s)/3)
 		x.Fb = append(x.Fb, s.inFallbackState && spState(s) != "closed")
 		x.Wbuf = append(x.Wbuf, spState(s) != "closed" && s.sendBuf.len > 0)
+		x.Cb = append(x.Cb, spState(s) != "closed" && s.getCallbacks() != nil)
+		x.Inproc = append(x.Inproc, atomic.LoadUint32(&s.callbackInProcess) == 1)
 		if w.srvObj[i] == nil {
 			x.Srv = append(x.Srv, "none")
 		} else {
@@ -408,6 +458,10 @@ func (w *spWorld) oracleHandOut(c int, s *Stream, ringBefore []*Stream) {
 	}
 	if !spInTable(s) {
 		w.fail("fresh-live-session", fmt.Sprintf("GetStream returned stream %d which its session does not know (not in the stream table)", id))
+		return
+	}
+	if s.getCallbacks() != nil {
+		w.fail("fresh-callbacks", fmt.Sprintf("GetStream returned stream %d to caller %d with the previous user's StreamCallbacks still set: what the peer sends to the new user is offered to them", id, c))
 		return
 	}
 	if n := s.sendBuf.Len(); n != 0 {
@@ -520,8 +574,26 @@ func (w *spWorld) oracleNoLeak(when string) {
 				accounted++
 				continue
 			}
+			if atomic.LoadUint32(&s.callbackInProcess) == 1 {
+				continue // its user's callback is still running: a close is pending until OnData returns
+			}
+			if pb := w.putOf(s); pb {
+				continue // its PutBack has not returned yet
+			}
 			if w.exempt[s] {
 				continue
+			}
+			// the listed class: PutBack while OnData runs, reset() succeeded (callbacks cleared); the stream is closed after
+			// that (pool full, or discarded later by getOrOpenStream) -> Close() is deferred to the callback goroutine
+			// without being armed
+			if w.putClean[s] && w.cbs[s] != nil && s.getCallbacks() == nil &&
+				atomic.LoadUint32(&s.callbackCloseState) != uint32(callbackWaitExit) && spState(s) == "half" {
+				w.hit(spSlugCbArm, fmt.Sprintf("stream %d was given back while its OnData was running and reset() succeeded (callbacks cleared); then it was closed (pool full / discarded): Close() was deferred to the callback goroutine but not armed; OnData has returned and the stream is still half-closed in the session's stream table (active count %d)",
+					w.idOf(s), p.A.GetActiveStreamCount()))
+				if w.known[spSlugCbArm] {
+					w.exempt[s] = true
+					continue
+				}
 			}
 			w.fail("leak", fmt.Sprintf("session %d counts %d active stream(s) %s; stream %d (state %s) is active but neither held by a caller nor kept by the pool",
 				pi+1, p.A.GetActiveStreamCount(), when, w.idOf(s), spState(s)))
@@ -558,16 +630,240 @@ func spCall(what string, f func()) bool {
 	}
 }
 
+// ---- callback mode ---------------------------------------------------------------------------------------------------
+
+// spCb: the StreamCallbacks a caller sets on its stream. OnData consumes ONE message and then stays inside OnData until
+// the harness lets it return (step CbReturn) - a user that is still busy in its callback.
+type spCb struct {
+	w       *spWorld
+	s       *Stream
+	id, gen int
+	release chan struct{}
+	calls   int32 // OnData invocations
+	parkedN int32 // ... that have consumed their message and wait
+	retN    int32 // ... that have returned
+	relN    int32 // ... that the harness has let return (written by the harness only)
+	local   int32
+	remote  int32
+	bad     atomic.Value
+}
+
+func (c *spCb) OnData(r BufferReader) {
+	n := atomic.AddInt32(&c.calls, 1)
+	b, err := r.ReadBytes(3)
+	if err != nil || len(b) != 3 {
+		c.bad.Store(fmt.Sprintf("OnData of stream %d: ReadBytes(3): %v", c.id, err))
+	} else {
+		c.w.consume(c.s)
+		if b[2] != 0x80 {
+			c.bad.Store(fmt.Sprintf("OnData (use %d of stream %d) was offered %v: a REQUEST written into the stream (by use %d), not bytes the peer sent", c.gen, c.id, b, b[1]))
+		} else if int(b[0]) != c.id {
+			c.bad.Store(fmt.Sprintf("OnData of stream %d was offered bytes %v of stream %d", c.id, b, b[0]))
+		}
+	}
+	atomic.StoreInt32(&c.parkedN, n)
+	<-c.release
+	atomic.StoreInt32(&c.retN, n)
+}
+func (c *spCb) OnLocalClose()  { atomic.AddInt32(&c.local, 1) }
+func (c *spCb) OnRemoteClose() { atomic.AddInt32(&c.remote, 1) }
+func (c *spCb) isParked() bool {
+	return atomic.LoadInt32(&c.parkedN) == atomic.LoadInt32(&c.calls) && atomic.LoadInt32(&c.parkedN) > atomic.LoadInt32(&c.relN)
+}
+
+// letReturn: the parked OnData returns
+func (c *spCb) letReturn() {
+	atomic.StoreInt32(&c.relN, atomic.LoadInt32(&c.parkedN))
+	c.release <- struct{}{}
+}
+
+// cbQuiescent: an OnData of the stream waits for the harness, or the callback goroutine has left (and, if a close was
+// deferred to it and armed, has closed the stream)
+func (w *spWorld) cbQuiescent(s *Stream) bool {
+	busy := false
+	for _, c := range w.allCbs {
+		if c.s != s {
+			continue
+		}
+		if c.isParked() {
+			return true
+		}
+		if atomic.LoadInt32(&c.calls) != atomic.LoadInt32(&c.retN) {
+			busy = true
+		}
+	}
+	if busy || atomic.LoadUint32(&s.callbackInProcess) == 1 {
+		return false
+	}
+	if atomic.LoadUint32(&s.callbackCloseState) == uint32(callbackWaitExit) && spState(s) != "closed" {
+		return false
+	}
+	return true
+}
+
+func (w *spWorld) waitCb() {
+	seen := map[*Stream]bool{}
+	for _, c := range w.allCbs {
+		if v := c.bad.Load(); v != nil {
+			w.fail("foreign-bytes", v.(string))
+		}
+		if seen[c.s] {
+			continue
+		}
+		seen[c.s] = true
+		ok := false
+		for deadline := time.Now().Add(20 * time.Second); time.Now().Before(deadline); { // generous
+			if w.cbQuiescent(c.s) {
+				// stable over two looks (the goroutine may be between two steps)
+				time.Sleep(20 * time.Microsecond)
+				if w.cbQuiescent(c.s) {
+					ok = true
+					break
+				}
+			}
+			time.Sleep(50 * time.Microsecond)
+		}
+		if !ok {
+			w.fail("hang", fmt.Sprintf("the callback goroutine of stream %d neither waits in OnData nor finishes (in process %d, close armed %d, state %s)",
+				c.id, atomic.LoadUint32(&c.s.callbackInProcess), atomic.LoadUint32(&c.s.callbackCloseState), spState(c.s)))
+		}
+	}
+}
+
+func (w *spWorld) consume(s *Stream) {
+	w.cmu.Lock()
+	p := w.consumed[s]
+	if p == nil {
+		p = new(int32)
+		w.consumed[s] = p
+	}
+	w.cmu.Unlock()
+	atomic.AddInt32(p, 1)
+}
+
+// oracleLedger: a stream holds exactly the bytes the peer sent to it and its user has not taken out yet - nothing a
+// caller wrote (its own or another caller's request) ever shows up as input, nothing the peer sent disappears
+func (w *spWorld) oracleLedger(when string) {
+	w.res.OracleEvals["byte-ledger"]++
+	for i, s := range w.streams {
+		if spState(s) == "closed" {
+			continue
+		}
+		w.cmu.Lock()
+		p := w.consumed[s]
+		w.cmu.Unlock()
+		c := 0
+		if p != nil {
+			c = int(atomic.LoadInt32(p))
+		}
+		exp := (w.delivered[s] - c) * 3
+		if got := spUnreadBytes(s); got != exp && w.staleOK[s] == 0 {
+			w.fail("foreign-bytes", fmt.Sprintf("stream %d holds %d unread byte(s) %s, but the peer sent %d message(s) to it of which %d were taken out: %d byte(s) that the peer did not send / that got lost",
+				i+1, got, when, w.delivered[s], c, got-exp))
+			return
+		}
+	}
+}
+
+// ---- PutBack under the serialising scheduler -------------------------------------------------------------------------
+
+type spPut struct {
+	th *vsThread
+	s  *Stream
+	h  int
+	at string // the function the thread is about to enter ("done" when PutBack has returned)
+}
+
+func spFn(pos string) string {
+	if i := strings.Index(pos, ":"); i >= 0 {
+		return pos[:i]
+	}
+	return pos
+}
+
+func (w *spWorld) putOf(s *Stream) bool {
+	for _, pb := range w.puts {
+		if pb != nil && pb.s == s {
+			return true
+		}
+	}
+	return false
+}
+
+// putAdvance runs the caller's PutBack up to the entry of its next phase (Stream.ReleaseReadAndReuse / streamPool.push)
+// or to its end. While it is parked there no lock is held, so other callers run unscheduled in between.
+func (w *spWorld) putAdvance(c int, pb *spPut) {
+	prev := spFn(pb.th.pos)
+	for {
+		_, now := vsStep(pb.th)
+		if now == "done" {
+			pb.at = "done"
+			if pb.th.panicVal != nil {
+				w.fail("panic", fmt.Sprint(pb.th.panicVal))
+			}
+			delete(w.puts, c)
+			w.holder[c-1] = 0
+			delete(w.staleOK, pb.s)
+			w.settleAll()
+			w.putOutcome(pb.s, pb.h)
+			return
+		}
+		fn := spFn(now)
+		if fn != prev && (fn == "Stream.ReleaseReadAndReuse" || fn == "streamPool.push") {
+			pb.at = fn
+			return
+		}
+		prev = fn
+	}
+}
+
+func (w *spWorld) putOutcome(s *Stream, h int) {
+	w.res.OracleEvals["put-outcome"]++
+	for _, o := range w.ringObjs() {
+		if o == s {
+			return
+		}
+	}
+	if spState(s) != "closed" && atomic.LoadUint32(&s.callbackInProcess) == 1 {
+		return
+	}
+	for _, hh := range w.holder {
+		if hh == h {
+			return // kept for reuse - and another caller has obtained it from the pool meanwhile
+		}
+	}
+	if spState(s) != "closed" {
+		w.fail("put-outcome", fmt.Sprintf("PutBack neither kept stream %d for reuse nor closed it (state %s)", h, spState(s)))
+	} else if spInTable(s) && !s.session.IsClosed() {
+		w.fail("put-outcome", fmt.Sprintf("PutBack closed stream %d but it is still counted as active", h))
+	}
+}
+
 // ---- steps -----------------------------------------------------------------------------------------------------------
 
 func (w *spWorld) curPair() *vpPair { return w.pairs[len(w.pairs)-1] }
 
 func (w *spWorld) do(st spStep) bool {
 	w.lastRes = ""
+	w.phaseDrift = ""
+	switch st.A {
+	case "Put", "Send", "Flush", "Write", "Read", "CloseHeld", "SetCb":
+		if w.puts[st.C] != nil {
+			return false // the caller is inside PutBack
+		}
+	}
 	switch st.A {
 	case "Get":
-		if st.C < 1 || st.C > w.callers || w.holder[st.C-1] != 0 {
+		if st.C < 1 || st.C > w.callers || w.holder[st.C-1] != 0 || w.puts[st.C] != nil {
 			return false
+		}
+		for _, o := range w.ringObjs() {
+			if o.IsOpen() && !o.session.IsClosed() && spUnreadBytes(o) == 0 {
+				if atomic.LoadUint32(&o.callbackInProcess) == 1 {
+					return false // (named restriction of the model: the previous user's OnData returns before the stream is reused)
+				}
+				break
+			}
 		}
 		before := w.ringObjs()
 		var s *Stream
@@ -576,51 +872,7 @@ func (w *spWorld) do(st spStep) bool {
 			w.fail("hang", "GetStream did not return within 30 s")
 			return true
 		}
-		if err != nil || s == nil {
-			w.lastRes = "err"
-			if err == nil {
-				w.fail("get", "GetStream returned nil, nil")
-			}
-		} else {
-			id := w.idOf(s)
-			if id == 0 {
-				w.streams = append(w.streams, s)
-				w.owner = append(w.owner, 0)
-				for pi, p := range w.pairs {
-					if p.A == s.session {
-						w.owner[len(w.owner)-1] = pi + 1
-					}
-				}
-				w.gen = append(w.gen, 0)
-				w.reqs = append(w.reqs, nil)
-				w.srvObj = append(w.srvObj, nil)
-				id = len(w.streams)
-			}
-			w.oracleHandOut(st.C, s, before)
-			w.gen[id-1]++
-			w.holder[st.C-1] = id
-			w.lastRes = fmt.Sprintf("s%d", id)
-		}
-		// classify what the pool discarded on the way
-		after := map[*Stream]bool{}
-		for _, o := range w.ringObjs() {
-			after[o] = true
-		}
-		for _, o := range before {
-			if o == nil || after[o] || o == s {
-				continue
-			}
-			delete(w.lateIn, o)
-			// the listed class: a stream that was open when it was pooled, found not open (closed by the peer meanwhile)
-			if !o.session.IsClosed() && spInTable(o) && w.pooledOpen[o] {
-				detail := fmt.Sprintf("GetStream discarded pooled stream %d (state %s) without closing it: it stays in the session's stream table (active count %d)",
-					w.idOf(o), spState(o), o.session.GetActiveStreamCount())
-				w.hit(spSlugDiscard, detail)
-				if w.known[spSlugDiscard] {
-					w.exempt[o] = true
-				}
-			}
-		}
+		w.afterGet(st.C, s, err, before)
 		w.settleAll()
 		return true
 	case "Put":
@@ -631,6 +883,7 @@ func (w *spWorld) do(st spStep) bool {
 		s := w.streams[h-1]
 		w.pooledOpen[s] = s.IsOpen()
 		w.dirtyPut[s] = s.sendBuf.len > 0
+		w.notePut(s)
 		if !spCall("PutBack", func() { w.sm.PutBack(s) }) {
 			w.fail("hang", "PutBack did not return within 30 s")
 			return true
@@ -650,14 +903,16 @@ func (w *spWorld) do(st spStep) bool {
 			w.lastRes = "pooled"
 		} else {
 			w.lastRes = "closed"
-			if spState(s) != "closed" {
+			if spState(s) != "closed" && atomic.LoadUint32(&s.callbackInProcess) == 1 {
+				w.lastRes = "closing" // deferred to the running callback goroutine; checked when OnData has returned
+			} else if spState(s) != "closed" {
 				w.fail("put-outcome", fmt.Sprintf("PutBack neither kept stream %d for reuse nor closed it (state %s)", h, spState(s)))
 			} else if spInTable(s) && !s.session.IsClosed() {
 				w.fail("put-outcome", fmt.Sprintf("PutBack closed stream %d but it is still counted as active", h))
 			}
 		}
 		return true
-	case "Send":
+	case "Send", "Flush":
 		h := w.holderOf(st.C)
 		if h == 0 {
 			return false
@@ -671,13 +926,29 @@ func (w *spWorld) do(st spStep) bool {
 		if st.F {
 			held = p.hog(0)
 		}
-		_, err := s.BufferWriter().WriteBytes([]byte{byte(h), byte(w.gen[h-1]), 0x10})
+		var err error
+		nreq := len(w.reqs[h-1])
+		flushed := s.sendBuf.Len() / 3
+		if st.A == "Send" {
+			_, err = s.BufferWriter().WriteBytes([]byte{byte(h), byte(w.gen[h-1]), 0x10})
+			flushed++
+		}
 		if err == nil {
 			err = s.Flush(false)
 		}
 		if st.F {
 			p.unhog(held)
 		}
+		defer func() {
+			// a successful Flush delivers what was written: the peer's end exists and has received the request(s)
+			if err == nil && w.viol == nil {
+				w.res.OracleEvals["request-delivered"]++
+				if w.srvObj[h-1] == nil || len(w.reqs[h-1]) != nreq+flushed {
+					w.fail("lost-request", fmt.Sprintf("caller %d wrote %d request(s) to stream %d and Flush returned nil, but the peer received %d",
+						st.C, flushed, h, len(w.reqs[h-1])-nreq))
+				}
+			}
+		}()
 		switch err {
 		case nil:
 			w.lastRes = "ok"
@@ -708,7 +979,7 @@ func (w *spWorld) do(st spStep) bool {
 			return false
 		}
 		s := w.streams[h-1]
-		if spUnreadBytes(s) < 3 {
+		if spUnreadBytes(s) < 3 || s.getCallbacks() != nil || atomic.LoadUint32(&s.callbackInProcess) == 1 {
 			return false
 		}
 		s.SetReadDeadline(time.Now().Add(5 * time.Second))
@@ -719,7 +990,10 @@ func (w *spWorld) do(st spStep) bool {
 			return true
 		}
 		w.res.OracleEvals["read-tag"]++
-		if int(b[0]) != h {
+		w.consume(s)
+		if b[2] != 0x80 {
+			w.fail("foreign-bytes", fmt.Sprintf("caller %d read %v from stream %d: these bytes are a REQUEST written into the stream (by use %d), not bytes the peer sent", st.C, b, h, b[1]))
+		} else if int(b[0]) != h {
 			w.fail("isolation", fmt.Sprintf("caller %d reading stream %d received bytes %v of stream %d", st.C, h, b, b[0]))
 		} else if int(b[1]) != w.gen[h-1] {
 			// an answer to a request of an earlier use. If it arrived after this caller obtained the stream, the stream
@@ -781,6 +1055,7 @@ func (w *spWorld) do(st spStep) bool {
 			return false
 		}
 		c := w.streams[st.S-1]
+		w.delivered[c]++
 		heldGen := 0
 		for _, h := range w.holder {
 			if h == st.S {
@@ -806,9 +1081,67 @@ func (w *spWorld) do(st spStep) bool {
 		w.reqs[st.S-1] = nil
 		w.settleAll()
 		return true
+	case "SetCb":
+		h := w.holderOf(st.C)
+		if h == 0 {
+			return false
+		}
+		s := w.streams[h-1]
+		if s.getCallbacks() != nil || atomic.LoadUint32(&s.callbackInProcess) == 1 || spState(s) == "closed" {
+			return false
+		}
+		cb := &spCb{w: w, s: s, id: h, gen: w.gen[h-1], release: make(chan struct{})}
+		if err := s.SetCallbacks(cb); err != nil {
+			w.fail("setcb", err.Error())
+			return true
+		}
+		w.cbs[s] = cb
+		w.allCbs = append(w.allCbs, cb)
+		return true
+	case "CbReturn":
+		if st.S < 1 || st.S > len(w.streams) {
+			return false
+		}
+		var cb *spCb
+		for _, x := range w.allCbs {
+			if x.s == w.streams[st.S-1] && x.isParked() {
+				cb = x
+			}
+		}
+		if cb == nil {
+			return false
+		}
+		cb.letReturn()
+		w.settleAll()
+		return true
+	case "PutBegin":
+		h := w.holderOf(st.C)
+		if h == 0 || w.puts[st.C] != nil {
+			return false
+		}
+		s := w.streams[h-1]
+		w.pooledOpen[s] = s.IsOpen()
+		w.dirtyPut[s] = s.sendBuf.len > 0
+		w.notePut(s)
+		pb := &spPut{s: s, h: h}
+		pb.th = vsSpawn(100+st.C, func(*vsThread) { w.sm.PutBack(s) })
+		w.puts[st.C] = pb
+		w.putAdvance(st.C, pb)
+		return true
+	case "PutRelease", "PutPush":
+		pb := w.puts[st.C]
+		if pb == nil {
+			return false
+		}
+		want := map[string]string{"PutRelease": "Stream.ReleaseReadAndReuse", "PutPush": "streamPool.push"}[st.A]
+		if pb.at != want {
+			w.phaseDrift = fmt.Sprintf("the spec is at %s, the real PutBack is about to enter %s", st.A, pb.at)
+		}
+		w.putAdvance(st.C, pb)
+		return true
 	case "SessClose":
 		p := w.curPair()
-		if p.A.IsClosed() {
+		if p.A.IsClosed() || w.cbRunning(p) {
 			return false
 		}
 		p.A.Close()
@@ -818,8 +1151,8 @@ func (w *spWorld) do(st spStep) bool {
 			return false
 		}
 		p := w.pairs[st.S-1]
-		if w.sessState(p) != "closing" {
-			return false
+		if w.sessState(p) != "closing" || w.cbRunning(p) {
+			return false // (named restriction: the teardown would wait for the running OnData)
 		}
 		p.dispA.run()
 		p.B.Close()
@@ -853,6 +1186,69 @@ func (w *spWorld) do(st spStep) bool {
 	return false
 }
 
+
+// afterGet: bookkeeping and oracles at the moment GetStream returned (s, err) to caller c
+func (w *spWorld) afterGet(c int, s *Stream, err error, before []*Stream) {
+		if err != nil || s == nil {
+			w.lastRes = "err"
+			if err == nil {
+				w.fail("get", "GetStream returned nil, nil")
+			}
+		} else {
+			id := w.idOf(s)
+			if id == 0 {
+				w.streams = append(w.streams, s)
+				w.owner = append(w.owner, 0)
+				for pi, p := range w.pairs {
+					if p.A == s.session {
+						w.owner[len(w.owner)-1] = pi + 1
+					}
+				}
+				w.gen = append(w.gen, 0)
+				w.reqs = append(w.reqs, nil)
+				w.srvObj = append(w.srvObj, nil)
+				id = len(w.streams)
+			}
+			w.oracleHandOut(c, s, before)
+			w.gen[id-1]++
+			w.holder[c-1] = id
+			w.lastRes = fmt.Sprintf("s%d", id)
+		}
+		// classify what the pool discarded on the way
+		after := map[*Stream]bool{}
+		for _, o := range w.ringObjs() {
+			after[o] = true
+		}
+		for _, o := range before {
+			if o == nil || after[o] || o == s {
+				continue
+			}
+			delete(w.lateIn, o)
+			// the listed class: a stream that was open when it was pooled, found not open (closed by the peer meanwhile)
+			if !o.session.IsClosed() && spInTable(o) && w.pooledOpen[o] && atomic.LoadUint32(&o.callbackInProcess) == 0 {
+				detail := fmt.Sprintf("GetStream discarded pooled stream %d (state %s) without closing it: it stays in the session's stream table (active count %d)",
+					w.idOf(o), spState(o), o.session.GetActiveStreamCount())
+				w.hit(spSlugDiscard, detail)
+				if w.known[spSlugDiscard] {
+					w.exempt[o] = true
+				}
+			}
+		}
+}
+
+func (w *spWorld) notePut(s *Stream) {
+	w.putClean[s] = s.IsOpen() && spUnreadBytes(s) == 0 && s.sendBuf.len == 0 && !s.inFallbackState
+}
+
+func (w *spWorld) cbRunning(p *vpPair) bool {
+	for s := range w.cbs {
+		if s.session == p.A && atomic.LoadUint32(&s.callbackInProcess) == 1 {
+			return true
+		}
+	}
+	return false
+}
+
 func (w *spWorld) holderOf(c int) int {
 	if c < 1 || c > w.callers {
 		return 0
@@ -863,7 +1259,28 @@ func (w *spWorld) holderOf(c int) int {
 // finish: every caller gives its stream back, the pool is emptied the way streamPool.close() does it, the server
 // application closes its ends: nothing may remain active on either side (outside the listed discard class), no buffer
 // may remain allocated.
+func (w *spWorld) releaseCallbacks() {
+	for round := 0; round < 16; round++ {
+		any := false
+		for _, cb := range w.allCbs {
+			if cb.isParked() {
+				cb.letReturn()
+				any = true
+			}
+		}
+		w.settleAll()
+		if !any || w.viol != nil {
+			return
+		}
+	}
+}
+
 func (w *spWorld) finish() {
+	for c, pb := range w.puts {
+		for pb.at != "done" && w.viol == nil {
+			w.putAdvance(c, pb)
+		}
+	}
 	for c := 1; c <= w.callers; c++ {
 		if w.holder[c-1] != 0 {
 			w.do(spStep{A: "Put", C: c})
@@ -872,6 +1289,15 @@ func (w *spWorld) finish() {
 				return
 			}
 		}
+	}
+	// the users' callbacks return: closes deferred to them must now happen
+	w.releaseCallbacks()
+	if w.viol != nil {
+		return
+	}
+	w.oracleNoLeak("after every callback has returned")
+	if w.viol != nil {
+		return
 	}
 	popped := map[*Stream]bool{}
 	for s := w.pool.pop(); s != nil; s = w.pool.pop() {
@@ -931,8 +1357,10 @@ func (w *spWorld) finish() {
 
 func spStepStr(st spStep) string {
 	switch st.A {
-	case "Get", "Put", "Read", "CloseHeld", "Write":
+	case "Get", "Put", "Read", "CloseHeld", "Write", "SetCb", "PutBegin", "PutRelease", "PutPush", "Flush":
 		return fmt.Sprintf("%s(%d)", st.A, st.C)
+	case "CbReturn":
+		return fmt.Sprintf("CbReturn(%d)", st.S)
 	case "Send":
 		return fmt.Sprintf("Send(%d,%v)", st.C, st.F)
 	case "PeerReply":
@@ -953,6 +1381,11 @@ func spRunHistory(h spHistory, known []string, res *spResult, guarded bool) {
 		return
 	}
 	defer w.destroy()
+	if h.Sched {
+		vsReset(vsSched)
+		defer vsReset(vsOff)
+		res.SchedHist++
+	}
 	drift := false
 	var done []spStep
 	func() {
@@ -981,9 +1414,19 @@ func spRunHistory(h spHistory, known []string, res *spResult, guarded bool) {
 			if w.viol == nil {
 				w.oracleNoLeak(fmt.Sprintf("after step %d %s", i, spStepStr(st)))
 			}
+			if w.viol == nil {
+				w.oracleLedger(fmt.Sprintf("after step %d %s", i, spStepStr(st)))
+			}
 			if w.viol != nil {
 				w.viol.At = i
 				break
+			}
+			if w.phaseDrift != "" && !drift && !guarded {
+				drift = true
+				res.DriftCount++
+				if len(res.Drift) < 6 {
+					res.Drift = append(res.Drift, fmt.Sprintf("%s step %d %s: %s", h.Name, i, spStepStr(st), w.phaseDrift))
+				}
 			}
 			if st.X != nil && !drift {
 				if d := spDiff(w.project(len(st.X.St)), st.X); d != "" {
@@ -1168,6 +1611,183 @@ func spRunConcurrent(job spConcJob, run int, res *spResult) {
 	}
 }
 
+// spSweepOne: setup, then caller A's PutBack and caller B's GetStream+WriteBytes as two threads of the serialising
+// scheduler, interleaved by `policy` (1 = step A, 2 = step B); then B flushes, the peer answers, B reads; then the closing
+// phase. Returns the schedule and the number of steps A took.
+func spSweepOne(sw spSweep, known []string, res *spResult, name string, policy func(i, aSteps int, bDone bool) int) ([]int, int, bool) {
+	w, err := spNewWorld(sw.Cap, sw.Callers, known, res)
+	if err != nil {
+		res.Violations = append(res.Violations, spViolation{Kind: "fixture", Detail: err.Error(), History: name})
+		return nil, 0, false
+	}
+	defer w.destroy()
+	var sched []int
+	aSteps := 0
+	ok := true
+	func() {
+		defer func() {
+			if r := recover(); r != nil {
+				w.fail("panic", fmt.Sprint(r))
+			}
+		}()
+		for _, st := range sw.Setup {
+			if !w.do(st) || w.viol != nil {
+				ok = false
+				return
+			}
+		}
+		hA := w.holderOf(sw.A)
+		if hA == 0 || w.holderOf(sw.B) != 0 {
+			ok = false
+			return
+		}
+		sA := w.streams[hA-1]
+		vsReset(vsSched)
+		defer vsReset(vsOff)
+		w.sweep = true
+		w.pooledOpen[sA] = sA.IsOpen()
+		w.dirtyPut[sA] = sA.sendBuf.len > 0
+		w.holder[sw.A-1] = 0 // A gives the stream back; from now on it must not matter to anybody what A's PutBack still does
+		pb := &spPut{s: sA, h: hA}
+		w.puts[sw.A] = pb
+		thA := vsSpawn(1, func(*vsThread) { w.sm.PutBack(sA) })
+		thB := vsSpawn(2, func(*vsThread) {
+			s, err := w.sm.GetStream()
+			w.afterGet(sw.B, s, err, nil)
+			if h := w.holderOf(sw.B); h != 0 {
+				if s == sA {
+					res.SweepReuse++
+				}
+				s.BufferWriter().WriteBytes([]byte{byte(h), byte(w.gen[h-1]), 0x10})
+			}
+		})
+		seen := map[string]bool{}
+		for i := 0; !(thA.done && thB.done); i++ {
+			canA, canB := vsEnabled(thA), vsEnabled(thB)
+			if !canA && !canB {
+				w.fail("hang", "PutBack and GetStream wait for each other")
+				return
+			}
+			pick := policy(i, aSteps, thB.done)
+			if pick == 1 && !canA {
+				pick = 2
+			} else if pick == 2 && !canB {
+				pick = 1
+			}
+			th := thA
+			if pick == 2 {
+				th = thB
+			} else {
+				aSteps++
+			}
+			_, now := vsStep(th)
+			seen[fmt.Sprintf("%d@%s", pick, now)] = true
+			sched = append(sched, pick)
+		}
+		for _, th := range []*vsThread{thA, thB} {
+			if th.panicVal != nil {
+				w.fail("panic", fmt.Sprint(th.panicVal))
+				return
+			}
+		}
+		for l := range seen {
+			found := false
+			for _, x := range res.SweepLabels {
+				if x == l {
+					found = true
+				}
+			}
+			if !found && len(res.SweepLabels) < 200 {
+				res.SweepLabels = append(res.SweepLabels, l)
+			}
+		}
+		vsReset(vsOff)
+		w.sweep = false
+		delete(w.puts, sw.A)
+		w.settleAll()
+		w.putOutcome(sA, hA)
+		if w.viol == nil {
+			w.oracleNoLeak("after PutBack and GetStream have both returned")
+		}
+		if w.viol == nil {
+			w.oracleLedger("after PutBack and GetStream have both returned")
+		}
+		// B uses what it obtained: flush the request it wrote, get the answer, read it
+		if hB := w.holderOf(sw.B); hB != 0 && w.viol == nil {
+			for _, st := range []spStep{{A: "Flush", C: sw.B}, {A: "PeerReply", S: hB}, {A: "Read", C: sw.B}} {
+				if !w.do(st) && w.viol == nil {
+					w.fail("use-after-get", fmt.Sprintf("caller %d obtained stream %d, wrote a request; then %s was not possible (state %s, unread %d)",
+						sw.B, hB, spStepStr(st), spState(w.streams[hB-1]), spUnreadBytes(w.streams[hB-1])))
+				}
+				if w.viol == nil {
+					w.oracleLedger("after " + spStepStr(st))
+				}
+				if w.viol != nil {
+					break
+				}
+			}
+		}
+		if w.viol == nil {
+			w.finish()
+		}
+	}()
+	if !ok {
+		return nil, 0, false
+	}
+	res.SweepRuns++
+	if w.viol != nil {
+		w.viol.History = name
+		w.viol.Steps = sw.Setup
+		w.viol.At = len(sw.Setup)
+		c := sw
+		c.Only = sched
+		c.Random = 0
+		w.viol.Sweep = &c
+		var sb strings.Builder
+		for _, x := range sched {
+			sb.WriteString([]string{"", "A", "B"}[x])
+		}
+		w.viol.Detail += fmt.Sprintf(" [caller %d PutBack (A) / caller %d GetStream+WriteBytes (B) interleaved at scheduling points: %s]", sw.A, sw.B, sb.String())
+		res.Violations = append(res.Violations, *w.viol)
+	}
+	return sched, aSteps, true
+}
+
+func spRunSweep(sw spSweep, known []string, res *spResult) {
+	if len(sw.Only) > 0 {
+		spSweepOne(sw, known, res, sw.Name+"/replay", func(i, a int, bd bool) int {
+			if i < len(sw.Only) {
+				return sw.Only[i]
+			}
+			return 1
+		})
+		return
+	}
+	nv := len(res.Violations)
+	// B runs (to its end) at A's k-th scheduling point, for every k
+	for k := 0; k < 200; k++ {
+		_, aSteps, ok := spSweepOne(sw, known, res, fmt.Sprintf("%s/B-at-A-step-%d", sw.Name, k), func(i, a int, bDone bool) int {
+			if a < k || bDone {
+				return 1
+			}
+			return 2
+		})
+		if !ok {
+			return
+		}
+		res.SweepPoints++
+		if k >= aSteps || len(res.Violations) > nv+2 {
+			break
+		}
+	}
+	// seeded random interleavings of the two
+	rng := rand.New(rand.NewSource(sw.Seed))
+	for r := 0; r < sw.Random && len(res.Violations) <= nv+2; r++ {
+		spSweepOne(sw, known, res, fmt.Sprintf("%s/random-%d", sw.Name, r), func(i, a int, bDone bool) int { return 1 + rng.Intn(2) })
+		res.SweepPoints++
+	}
+}
+
 func TestVS_StreamPool(t *testing.T) {
 	var job spJob
 	b, err := os.ReadFile(os.Getenv("VS_IN_JOB"))
@@ -1178,7 +1798,7 @@ func TestVS_StreamPool(t *testing.T) {
 		t.Fatal(err)
 	}
 	res := &spResult{Violations: []spViolation{}, Drift: []string{}, Samples: []string{}, KnownHits: map[string]int{},
-		KnownWit: map[string]string{}, OracleEvals: map[string]int{}, ConcTraces: [][]spConcEvent{}}
+		KnownWit: map[string]string{}, OracleEvals: map[string]int{}, ConcTraces: [][]spConcEvent{}, SweepLabels: []string{}}
 	flush := func() {
 		out, _ := json.Marshal(res)
 		os.WriteFile(os.Getenv("VS_OUT"), out, 0o644)
@@ -1259,13 +1879,48 @@ func TestVS_StreamPool(t *testing.T) {
 		}
 		wg.Wait()
 	}
-	runAll(job.Histories, false, 8)
+	var par, seq []spHistory
+	for _, h := range job.Histories {
+		if h.Sched {
+			seq = append(seq, h)
+		} else {
+			par = append(par, h)
+		}
+	}
+	runAll(par, false, 8)
 	if stop(8) {
 		return
 	}
+	// the serialising scheduler is one per process: these run one after the other, nothing else runs meanwhile
+	for _, h := range seq {
+		l := newLocal()
+		spRunHistory(h, job.Known, l, false)
+		res.SchedHist += l.SchedHist
+		merge(l, false)
+		if stop(8) {
+			return
+		}
+	}
+	for _, sw := range job.Sweeps {
+		l := newLocal()
+		spRunSweep(sw, job.Known, l)
+		res.SweepRuns += l.SweepRuns
+		res.SweepPoints += l.SweepPoints
+		res.SweepReuse += l.SweepReuse
+		for _, x := range l.SweepLabels {
+			if len(res.SweepLabels) < 200 {
+				res.SweepLabels = append(res.SweepLabels, x)
+			}
+		}
+		l.Replayed, l.Steps, l.Conforming = 0, 0, 0
+		merge(l, false)
+		if stop(8) {
+			return
+		}
+	}
 	// seeded random histories (oracles only): any action, skipped when not applicable
 	rng := rand.New(rand.NewSource(job.Random.Seed))
-	acts := []string{"Get", "Get", "Put", "Put", "Send", "Send", "Read", "Write", "PeerReply", "PeerReply", "PeerClose", "CloseHeld",
+	acts := []string{"Get", "Get", "Put", "Put", "Send", "Send", "Read", "Write", "SetCb", "CbReturn", "CbReturn", "PeerReply", "PeerReply", "PeerClose", "CloseHeld",
 		"SessClose", "Teardown", "PoolDrain", "Rebuild"}
 	var rh []spHistory
 	for run := 0; run < job.Random.N; run++ {
